@@ -5,7 +5,7 @@
    `pp e` = the tokens of Expression::pretty_print (model of typed_ast.rs as fixed);
    `parse` = the parser model of C10; `erase e` = the untyped tree e was elaborated from. *)
 From Coq Require Import List NArith Bool.
-From NV Require Import Syntax.Token Syntax.Ast Syntax.StrEsc Syntax.Parser Syntax.Grammar
+From NV Require Import Syntax.Token Syntax.Ast Syntax.StmtAst Syntax.StrEsc Syntax.Parser Syntax.Grammar
      Syntax.StrEscProofs Syntax.TypedPrinter Syntax.TypedPrinterProofs Syntax.FixedPoint.
 Import ListNotations.
 Local Open Scope N_scope.
